@@ -53,6 +53,9 @@
      C03_stale_live_histories2: hence along every op2 history from the empty world, loads and all other known classes
        included, outside Known_load_shared: stale handles cannot change the live model, and all place-dependent
        requests except the four fail without any change.
+     C03_sort_local: Element::sort(h) changes only nodes reachable from h.  C03_stale_live2 / _histories2: the same
+       "cannot change the live model" for requests of op2 through a handle (principal2: Op1 requests, Element::sort,
+       Element::serialize), in every Core world and along every op2 history outside Known_load_shared.
    HEADLINE: C03_histories2_headline — the property text as one statement over op2 histories from the empty world
      outside Known_load_shared: Core (well-formed tree), sub_elements / parent / position agree, elements_dfs = the
      reachable elements once each in pre-order, the sub-element iterator = the content list, stale handles cannot
@@ -62,7 +65,7 @@ From AV Require Import Base.Bytes Base.Outcome Hash.HashModel Tree.Heap Tree.Ops
   Tree.InvProofsDetFiles Tree.InvProofsDetFilesMain Tree.InvProofsOp2 Tree.InvExamples
   Tree.InvProofsChars Tree.InvProofsChars5 Tree.InvProofsOrigins3 Tree.InvProofsReal Tree.InvProofsRealTables Spec.SpecReal.
 From AV Require Import Tree.Script2 Tree.InvLoad Tree.InvProofsOp2Full Tree.InvProofsLoadExamples Tree.InvProofsOp2Lift
-  Tree.InvProofsOp2Real Tree.InvEBase Tree.InvProofsLoadLive Tree.InvProofsOp2Live Tree.InvProofsOp2Rej Tree.InvE_Main Tree.InvL_Base Tree.InvL_Main Tree.InvL_Op2 Tree.InvProofsStale2 Tree.InvProofsStale2Examples Tree.InvProofsStale3 Tree.InvProofsHeadline.
+  Tree.InvProofsOp2Real Tree.InvEBase Tree.InvProofsLoadLive Tree.InvProofsOp2Live Tree.InvProofsOp2Rej Tree.InvE_Main Tree.InvL_Base Tree.InvL_Main Tree.InvL_Op2 Tree.InvProofsStale2 Tree.InvProofsStale2Examples Tree.InvProofsStale3 Tree.InvProofsHeadline Tree.InvProofsStale4.
 From AV Require Xml.TablesOk.
 From AV Require Tree.Load Tree.MergeSpec Tree.LoadProofsRefuted.
 Open Scope string_scope.
@@ -669,6 +672,38 @@ Theorem C03_histories2_headline :
        Inv.run T tab_el tab_en check_fn LATEST root_attrs o w = Val (r, w') ->
        live_eq w w' /\ (place_dependent o = true -> needs_version_only o = false -> w' = w /\ failed r)).
 Proof. exact headline_histories2. Qed.
+
+Theorem C03_sort_local :
+  forall (T : tables) (tab_el tab_at tab_en : nametab) (name_index name_definition_ref : N)
+         (h : id) (w : world) (r : out unit) (w' : world),
+    Sort.e_sort T tab_el tab_at tab_en name_index name_definition_ref h w = Val (r, w') ->
+    w_models w' = w_models w /\ w_files w' = w_files w /\
+    (forall x : id, ~ Reach w h x -> w_nodes w' x = w_nodes w x).
+Proof. exact sort_local. Qed.
+
+Theorem C03_stale_live2 :
+  forall (T : tables) (tab_el tab_at tab_en : nametab) (check_fn : N -> list N -> res bool)
+         (float_parse : list N -> option N) (float_fmt : N -> list N)
+         (LATEST name_index name_definition_ref attr_schema_location : N) (root_attrs : list (N * cdata))
+         (o : op2) (h : id) (w : world) (r : out value2) (w' : world),
+    Core w -> Detached w h -> principal2 o = Some h ->
+    run_op2 T tab_el tab_at tab_en check_fn float_parse float_fmt LATEST name_index name_definition_ref
+      attr_schema_location root_attrs o w = Val (r, w') -> live_eq w w'.
+Proof. exact stale_live2. Qed.
+
+Theorem C03_stale_live2_histories2 :
+  forall (T : tables) (tab_el tab_at tab_en : nametab) (check_fn : N -> list N -> res bool)
+         (float_parse : list N -> option N) (float_fmt : N -> list N)
+         (LATEST name_index name_definition_ref attr_schema_location : N) (root_attrs : list (N * cdata))
+         (l : list op2) (w : world) (o : op2) (h : id) (r : out value2) (w' : world),
+    run_ops2 T tab_el tab_at tab_en check_fn float_parse float_fmt LATEST name_index name_definition_ref
+      attr_schema_location root_attrs l empty_world = Val w ->
+    clean_shared_ops2 T tab_el tab_at tab_en check_fn float_parse float_fmt LATEST name_index
+      name_definition_ref attr_schema_location root_attrs l empty_world = true ->
+    Detached w h -> principal2 o = Some h ->
+    run_op2 T tab_el tab_at tab_en check_fn float_parse float_fmt LATEST name_index name_definition_ref
+      attr_schema_location root_attrs o w = Val (r, w') -> live_eq w w'.
+Proof. exact stale_live2_histories2. Qed.
 
 (* ---------- the finding: an error after the point of no return leaves an orphan ---------- *)
 Theorem C03_failed_reparent_refuted :
